@@ -44,6 +44,7 @@ fn handle(toks: &[&str]) -> String {
         "wire" => wire::wire(&toks[1..]).unwrap_or_else(|| "bad-op".to_string()),
         "chan" => wire::chan(&toks[1..]).unwrap_or_else(|| "bad-op".to_string()),
         "selstress" => wire::selstress(&toks[1..]).unwrap_or_else(|| "bad-op".to_string()),
+        "exe" => l1::exe(&toks[1..]).unwrap_or_else(|| "bad-op".to_string()),
         "filt" => l1::filt(&toks[1..]).unwrap_or_else(|| "bad-op".to_string()),
         "rpd" => l1::rpd(&toks[1..]).unwrap_or_else(|| "bad-op".to_string()),
         _ => "bad-op".to_string(),
